@@ -4,7 +4,7 @@
    correspondence run (separate processes, different thread counts) exercise the rest. *)
 From Coq Require Import List NArith ZArith Bool Sorting.Permutation.
 From FV.C02 Require Import Model Graph Order Safe Reach.
-From FV.C01 Require Import Model Det SchedDet.
+From FV.C01 Require Import Model Det SchedDet SortDet.
 From FV.C07 Require Model OrderIndep.
 From FV.C06 Require Model Proofs.
 From FV.C02 Require Props.
@@ -54,6 +54,33 @@ Theorem preliminary_glyph_order_ignores_hash_order : forall declared names names
   FV.C06.Model.ufo_prelim declared names = FV.C06.Model.ufo_prelim declared names'.
 Proof. exact FV.C06.Proofs.ufo_prelim_perm_invariant. Qed.
 Print Assumptions preliminary_glyph_order_ignores_hash_order.
+
+(* 5. "Sorted before it reaches bytes": the name records of a font are the same list whatever order the HashMap
+      StaticMetadata.names yields them in (fontbe/src/name.rs name_records.sort() / merge through a BTreeMap), and a
+      font that passes the correspondence predicate has exactly that list. *)
+Theorem name_record_order_ignores_hash_order : forall keys keys',
+  Permutation keys keys' -> sort_keys keys = sort_keys keys'.
+Proof. exact sort_keys_order_independent. Qed.
+Print Assumptions name_record_order_ignores_hash_order.
+
+Theorem checked_name_records_are_canonical : forall keys, name_order_ok keys = true ->
+  forall keys', Permutation keys keys' -> sort_keys keys' = keys.
+Proof. exact name_order_ok_canonical. Qed.
+Print Assumptions checked_name_records_are_canonical.
+
+(* the same for any collection sorted by a total order on the way out (kerning pairs, mark classes, ...) *)
+Theorem sorting_by_a_total_order_erases_arrival_order : forall (A : Type) (leb : A -> A -> bool),
+  (forall a b, leb a b = true \/ leb b a = true) ->
+  (forall a b c, leb a b = true -> leb b c = true -> leb a c = true) ->
+  (forall a b, leb a b = true -> leb b a = true -> a = b) ->
+  forall l l', Permutation l l' -> isort_by leb l = isort_by leb l'.
+Proof. exact isort_order_independent. Qed.
+Print Assumptions sorting_by_a_total_order_erases_arrival_order.
+
+Example name_order_nonvacuous :
+  name_order_ok [(0,4,0,1);(0,4,0,2);(3,1,1033,1);(3,1,1033,2);(3,1,1033,256)]%N = true
+  /\ name_order_ok [(3,1,1033,2);(3,1,1033,1)]%N = false.
+Proof. split; vm_compute; reflexivity. Qed.
 
 (* non-vacuity: two different schedules of the tiny safe graph of C02 run the same jobs *)
 Example two_schedules :
